@@ -32,7 +32,8 @@ THEOREMS = [
     "ESV.C15.cli_out_of_order_counterexample",
     "ESV.C15.cli_build_positional_fixed", "ESV.C15.cli_fixed_conservative", "ESV.C15.cli_fixed_on_witnesses",
     "ESV.C15.cli_coroutine_counterexample", "ESV.C15.cli_coroutine_fixed", "ESV.C15.cli_target_null_counterexample",
-    "ESV.C15.cli_posmark_int_counterexample", "ESV.Cli.cliParsePos_posFinal",
+    "ESV.C15.cli_posmark_int_counterexample", "ESV.C15.cli_accepts_documented", "ESV.C15.docShapeStr_documented",
+    "ESV.Cli.cliParsePos_posFinal",
 ]
 
 SETTINGS = impl_cli.SETTINGS
@@ -100,7 +101,7 @@ def is_int(v: Any) -> bool:
     return isinstance(v, int) and not isinstance(v, bool)
 
 
-def param_errors(p: Any) -> list[str]:
+def param_errors(p: Any, ints: bool = True) -> list[str]:
     if is_int(p):
         return []
     if not isinstance(p, dict) or "type" not in p or "value" not in p:
@@ -118,14 +119,14 @@ def param_errors(p: Any) -> list[str]:
         out = []
         for k in ("x", "y"):
             c = v.get(k)
-            if not (is_int(c) or (isinstance(c, str) and COORD_RE.match(c))):
+            if not ((ints and is_int(c)) or (isinstance(c, str) and COORD_RE.match(c))):
                 out.append(f"POSITION_MARK {k} = {c!r} is neither an integer nor a whole/half tile string")
         return out
     return [f"unknown argument type {t!r}"]
 
 
-def doc_errors(doc: Any) -> list[str]:
-    """[] iff the document follows docs/cli_api_usage.rst"""
+def doc_errors(doc: Any, ints: bool = True) -> list[str]:
+    """[] iff the document follows docs/cli_api_usage.rst (ints=False: position coordinates must be strings)"""
     if not isinstance(doc, dict):
         return ["not an object"]
     out: list[str] = []
@@ -155,7 +156,7 @@ def doc_errors(doc: Any) -> list[str]:
                 out.append(f"routine {i} op {k}: opcode/params missing")
                 continue
             for p in o["params"]:
-                out += [f"routine {i} op {k}: {e}" for e in param_errors(p)]
+                out += [f"routine {i} op {k}: {e}" for e in param_errors(p, ints)]
     return out
 
 
@@ -786,11 +787,16 @@ def run(run: core.Run) -> int:
                 mism += 1
                 if mism <= 3:
                     run.broken_tie("correspondence C15: model and implementation disagree on read_routines", {"channel": "cli.read", "document": d["doc"], "impl": a2, "model": model})
-            shape = reps[3 * nb + nd + i].get("ok")
-            hand = not doc_errors(d["doc"])
-            if shape != hand:
+            shape, shape_str = reps[3 * nb + nd + i].get("ok"), reps[3 * nb + nd + i].get("str")
+            hand, hand_str = not doc_errors(d["doc"]), not doc_errors(d["doc"], ints=False)
+            if shape != hand or shape_str != hand_str:
                 mism += 1
-                run.broken_tie("the Lean DocShape and the hand-written validator of the documented structure disagree", {"document": d["doc"], "lean": shape, "hand": hand, "errors": doc_errors(d["doc"])})
+                run.broken_tie("the Lean DocShape and the hand-written validator of the documented structure disagree", {"document": d["doc"], "lean": [shape, shape_str], "hand": [hand, hand_str], "errors": doc_errors(d["doc"])})
+            stats["docs_documented"] += bool(hand)
+            stats["docs_documented_string_coordinates"] += bool(hand_str)
+            if shape_str and "err" in model:
+                # instance of theorem cli_accepts_documented on this document
+                run.broken_tie("the model refuses a document with the documented structure (contradicts ESV.C15.cli_accepts_documented)", {"document": d["doc"], "model": model})
             if d["tag"] != "malformed" and not hand:
                 run.broken_tie("generator produced a document outside the documented structure", {"document": d["doc"], "errors": doc_errors(d["doc"])})
             # documented documents must be accepted by read_routines (the part of the command before the decompiler)
